@@ -1585,9 +1585,9 @@ fn hc_step(hc: &mut uv::HalfConnection, inbox: &mut VecDeque<(SocketAddr, Rc<Vec
         if bytes.len() <= uflow::MAX_FRAME_SIZE {
             if let Some(frame) = uv::Frame::read(&bytes) {
                 match frame {
-                    uv::Frame::DataFrame(f) => hc.handle_data_frame(f),
-                    uv::Frame::SyncFrame(f) => hc.handle_sync_frame(f),
-                    uv::Frame::AckFrame(f) => hc.handle_ack_frame(f),
+                    uv::Frame::DataFrame(f) => drop(hc.handle_data_frame(f)),
+                    uv::Frame::SyncFrame(f) => drop(hc.handle_sync_frame(f)),
+                    uv::Frame::AckFrame(f) => drop(hc.handle_ack_frame(f)),
                     _ => (),
                 }
             }
